@@ -1,25 +1,16 @@
-/- C10: ties to the source text.  Built and audited together with Props/C10.lean by check.py, but in a module of its own, so that a
+/- C20: ties to the source text.  Built and audited together with Props/C20.lean by check.py, but in a module of its own, so that a
    changed textual fact breaks the obligations of the properties that own it and not those of every module that imports their lemmas. -/
-import CosetProofs.Ties.Budget.Key
 import CosetProofs.Ties.Compare.Common
-import CosetProofs.Ties.Compare.Iana
 import CosetProofs.Ties.Compare.Key
-namespace Coset.Props.C10
+namespace Coset.Props.C20
 
 /-! ### ties to the source text (regenerated on every run, compared in the kernel with the transcribed tree) -/
 
-/-- decision budget of `src/key/mod.rs`: no branch, comparison or integer literal beyond the transcribed tree's (a needle no stream reaches still adds one). -/
-theorem tie_budget_key : Coset.Ties.budgetCovered "key" Coset.Gen.decisionBudget Coset.Pinned.decisionBudget = true := Coset.Ties.budget_key
-
-#print axioms tie_budget_key
-
 /-! comparisons and integer literals of the modules this property is anchored in (properties.jsonl): none beyond the transcribed tree's -/
 theorem tie_compare_common : Coset.Ties.compareCovered "common" Coset.Gen.decisionBudget Coset.Pinned.decisionBudget = true := Coset.Ties.compare_common
-theorem tie_compare_iana : Coset.Ties.compareCovered "iana" Coset.Gen.decisionBudget Coset.Pinned.decisionBudget = true := Coset.Ties.compare_iana
 theorem tie_compare_key : Coset.Ties.compareCovered "key" Coset.Gen.decisionBudget Coset.Pinned.decisionBudget = true := Coset.Ties.compare_key
 
 #print axioms tie_compare_common
-#print axioms tie_compare_iana
 #print axioms tie_compare_key
 
-end Coset.Props.C10
+end Coset.Props.C20
